@@ -110,6 +110,8 @@ def to_coq(c):
     if o.get("crash") or o.get("outhex"):
         return None
     op = c["op"]
+    if op == "file":
+        return "CUtf8 [] []"      # compared by the oracle only
     if op == "utf8":
         return "CUtf8 %s %s" % (inbytes(c), nlist(o.get("out") or []))
     if op == "raw":
@@ -305,3 +307,11 @@ def shrink(ck, case, still_fails, budget=120):
                 break
             n = min(n * 2, len(data))
     return best
+
+
+def file_oracle(c):
+    """The file-level entry points (WriteFile, Fprint, Sprint, ReadFile,
+    ReadFileMaybeJSON, ReadSeriesFile) must agree with the in-memory ones."""
+    if c["op"] == "file" and (c["obs"].get("note") or not c["obs"].get("ok")):
+        return "file-entry-point", "file-level entry point disagrees: %s" % (c["obs"].get("note") or c["obs"])
+    return None
